@@ -68,6 +68,14 @@ def step (_ : Unit) (line : String) : Unit × String :=
           | none => "ok"
       ((), r ++ " ||| " ++ v)
     | _, _ => ((), "bad-op")
+  | ["dotenv", ih, fh, t] =>
+    match parsePairs ih, parsePairs fh, hexDec t with
+    | some inh, some file, some txt =>
+      -- the file only supplies what the process-compose environment does not define (even as empty)
+      let env := inh ++ file.filter fun kv => !(inh.any (·.1 == kv.1))
+      let r := hexEncE (String.ofList (loadText (mapping env) txt.toList))
+      ((), r ++ " ||| " ++ (if impl == r then "ok" else "bad:dotenv-precedence want=" ++ r))
+    | _, _, _ => ((), "bad-op")
   | ["procenv", nh, rep, a, b, c, kh] =>
     match hexDec nh, rep.toNat?, parsePairs a, parsePairs b, parsePairs c, hexDec kh with
     | some name, some r, some inh, some glob, some own, some k =>
